@@ -219,6 +219,7 @@ PROPS["C07"] = {
          "quick": {"checks": 120, "shards": 12, "timeout": 700},
          "thorough": {"checks": 2500, "shards": 16, "timeout": 1700}},
         {"pkg": "verifx/tree", "run": "^TestC07KnownValidPrefix$", "all": {"shards": 1, "timeout": 300}},
+        {"pkg": "verifx/tree", "run": "^TestC07RegressionParamsDuringReorg$", "all": {"shards": 1, "timeout": 300}},
         # the irreversibility clause with the real DPoS veto: the C08 simulation (several real nodes, a misbehaving
         # producer growing a private branch while the others stay silent), judged for fork choice
         {"pkg": "verifx/c08", "run": "^TestC07DPoSForkChoice$",
